@@ -83,11 +83,22 @@ func r051(c *Ctx) {
 		if !ok {
 			continue
 		}
-		for _, ret := range normalReturns(inst) {
-			if _, nn := nilKnowledge(ret, sameAs(call)); nn && lastRet(ret) == ssa.Value(call) {
-				okProp = true
+		// whenever the locked section failed, that error is what is returned: no return can be reached with the
+		// section's error known non-nil (or unknown) and something else as the result
+		okProp = true
+		nRet := 0
+		for _, rc := range retCases(inst) {
+			res := rc.vals[len(rc.vals)-1]
+			isNil, _ := nilKnowledgeOf(rc.conds, sameAs(call))
+			if res == ssa.Value(call) {
+				nRet++
+				continue
+			}
+			if !isNil {
+				okProp = false
 			}
 		}
+		okProp = okProp && nRet >= 1
 	}
 	c.ob(rule, "installService/propagates-conflict", inst.Pos(), okProp, true, "installService must return the error of the locked section")
 	// withWriteLock returns fn()'s result
